@@ -58,3 +58,31 @@ package syncer
 //@   loop 1 invariant 0 <= i && i < h.size && first(h) <= index && index < h.index
 //@   loop 1 invariant dist(h, i) == index - first(h) + len(records) && dist(h, i) <= cnt(h)
 //@   loop 1 invariant forall k :: 0 <= k && k < len(records) ==> records[k] == h.records[slot(h, index - first(h) + k)]
+
+// The leader-side cluster view handed to the syncer: the cache never holds nil regions.
+//@ func (Server).GetRegions
+//@   assumed
+//@   ensures forall i :: 0 <= i && i < len(result) ==> result[i] != nil
+//@   modifies nothing
+//@ func (Server).ClusterID
+//@   assumed
+//@   modifies nothing
+//@ func (Server).Name
+//@   assumed
+//@   modifies nothing
+
+// Full and incremental synchronisation: what is handed to stream.Send is positionally aligned
+// (the follower pairs Regions[i] with RegionLeaders[i] and RegionStats[i]).
+//@ func (*RegionSyncer).syncHistoryRegion
+//@   props C16
+//@   requires s.history != nil && wf(s.history) && request != nil
+//@   loop 1 invariant -1 <= rangeindex && lastIndex >= 0 && lastIndex + len(metas) == rangeindex + 1
+//@   loop 1 invariant len(metas) < 100 && len(stats) == len(metas) && len(leaders) == len(metas)
+//@   loop 1 invariant forall i :: 0 <= i && i < len(metas) ==> metas[i] == regions[lastIndex + i].meta && (regions[lastIndex + i].leader != nil ==> leaders[i] == regions[lastIndex + i].leader)
+//@   at Send 1 assert [aligned] len(resp.Regions) == len(resp.RegionLeaders) && len(resp.Regions) == len(resp.RegionStats)
+//@   at Send 1 assert [batch] len(resp.Regions) >= 1 && len(resp.Regions) <= 100 && resp.StartIndex + len(resp.Regions) == lastIndex
+//@   at Send 1 assert [paired] forall i :: 0 <= i && i < len(resp.Regions) ==> resp.Regions[i] == regions[resp.StartIndex + i].meta && (regions[resp.StartIndex + i].leader != nil ==> resp.RegionLeaders[i] == regions[resp.StartIndex + i].leader)
+//@   loop 2 invariant -1 <= rangeindex && len(regions) == len(records) && len(stats) == len(records) && len(leaders) == len(records)
+//@   loop 2 invariant forall i :: 0 <= i && i <= rangeindex ==> (records[i] != nil ==> regions[i] == records[i].meta) && (records[i] != nil && records[i].leader != nil ==> leaders[i] == records[i].leader)
+//@   at Send 2 assert [aligned] len(resp.Regions) == len(resp.RegionLeaders) && len(resp.Regions) == len(resp.RegionStats) && resp.StartIndex == request.StartIndex
+//@   at Send 2 assert [paired] forall i :: 0 <= i && i < len(resp.Regions) ==> (records[i] != nil ==> resp.Regions[i] == records[i].meta) && (records[i] != nil && records[i].leader != nil ==> resp.RegionLeaders[i] == records[i].leader)
